@@ -70,6 +70,7 @@ type World struct {
 	Halted     bool
 	NSteps     int
 	HistID     string
+	LastErr    string
 }
 
 func mkAddr(class byte, id int64) []byte {
@@ -220,6 +221,11 @@ func Setup(t *testing.T, out *bufio.Writer, nVals, nUsers int, startNs int64, un
 		}
 		w.mintTo(addr, coins)
 	}
+	// Module accounts exist on a running chain.  (Observed: a plain transfer to the not-yet-created
+	// custody address creates a BaseAccount there, after which every SendCoinsFromAccountToModule
+	// panics "account is not a module account"; outside the given properties, see DESIGN.md.)
+	a.AccountKeeper.GetModuleAccount(ctx, types.ModuleName)
+	a.AccountKeeper.GetModuleAccount(ctx, types.RewardsPoolName)
 	for _, id := range []int64{AccAlliance, AccRewards, AccFee, AccBonded, AccNotBonded, Authority} {
 		w.accID[string(w.AccAddr(id))] = id
 	}
